@@ -28,8 +28,8 @@ theorem sound_core : Gen.K.sem.soundCoreB = true := by decide +kernel
 
 /-- C01 for this logic: a closed tableau reached by any legal derivation has no countermodel. -/
 theorem c01_valid_sound (arg : Argument) (t : Tableau)
-    (hd : Deriv Gen.K.sem.soundPart.noQuantPart (trunk Gen.K.sem arg) t) (hclosed : t.allClosed = true)
+    (hd : Deriv Gen.K.sem.soundPart (trunk Gen.K.sem arg) t) (hclosed : t.allClosed = true)
     (M : Struct) (hM : M.Interp Gen.K.sem) (e : Env M.D) (w0 : M.W) : ¬ Countermodel Gen.K.sem M e w0 arg :=
-  Props.C01.C01_valid_sound_partial Gen.K.sem sound_core arg t hd hclosed M hM e w0
+  Props.C01.C01_valid_sound Gen.K.sem sound_core arg t hd hclosed M hM e w0
 
 end Ptx.Gen.Obl.K
